@@ -1058,6 +1058,18 @@ fn families(ctx: &Ctx, sink: Sink) {
             let o = Opts::default();
             family_descriptors(thorough, &o, sink);
         }
+        "C12" if ctx.has("--ecma") => {
+            // ecmascript slice (full-feature build): the same oddities in a document with datamodel="ecmascript" plus
+            // script-engine specific ones; oracle: no crash, no wedge, cancellable (the error classes are judged in
+            // the rfsm-expression slice only)
+            let n = oddities().len() + ecma_oddities().len();
+            sink(scenario_item("robust@ecma:", "base"));
+            let mut names: Vec<&'static str> = oddities().iter().map(|o| o.0).collect();
+            names.extend(ecma_oddities().iter().map(|o| o.0));
+            for i in 0..n {
+                sink(scenario_item(&format!("robust@ecma:{}", i), names[i]));
+            }
+        }
         "C12" => {
             let n = oddities().len();
             sink(scenario_item("robust:", "base"));
@@ -1572,6 +1584,31 @@ fn oddities() -> Vec<(&'static str, &'static str, String, &'static str)> {
     v
 }
 
+/// oddities that only make sense with a script engine behind the data model
+fn ecma_oddities() -> Vec<(&'static str, &'static str, String, &'static str)> {
+    let mut v: Vec<(&'static str, &'static str, String, &'static str)> = vec![];
+    let mut c = |n: &'static str, x: &str| v.push((n, "content", x.to_string(), ""));
+    c("foreach-push-to-iterated-array", r##"<foreach array="arr" item="it"><script>arr.push(it + 10)</script></foreach>"##);
+    c("foreach-pop-from-iterated-array", r##"<foreach array="arr" item="it" index="ix"><script>arr.pop()</script></foreach>"##);
+    c("foreach-replace-iterated-array", r##"<foreach array="arr" item="it"><assign location="arr" expr="[]"/></foreach>"##);
+    c("script-throws-string", r##"<script>throw 'boom'</script>"##);
+    c("script-throws-object", r##"<script>throw {a: 1}</script>"##);
+    c("script-deep-recursion", r##"<script>function rec(n) { return rec(n + 1) + 1; } rec(0)</script>"##);
+    c("script-redefines-in", r##"<script>In = 5</script>"##);
+    c("script-deletes-event", r##"<script>delete _event.name</script>"##);
+    c("script-huge-string", r##"<script>var big = 'x'; for (var k = 0; k &lt; 20; k++) { big = big + big; }</script>"##);
+    c("assign-function-value", r##"<assign location="v" expr="function () { return 1; }"/>"##);
+    c("assign-symbol-value", r##"<assign location="v" expr="Symbol('s')"/>"##);
+    c("assign-cyclic-object", r##"<script>var cyc = {}; cyc.self = cyc; v = cyc</script>"##);
+    c("send-cyclic-param", r##"<script>var cyc2 = {}; cyc2.self = cyc2</script><send event="x"><param name="p" expr="cyc2"/></send>"##);
+    c("send-function-param", r##"<send event="x"><param name="p" expr="function () {}"/></send>"##);
+    c("send-undefined-content", r##"<send event="x"><content expr="undefined"/></send>"##);
+    c("log-object-with-throwing-tostring", r##"<log expr="({toString: function () { throw 'ts'; }})"/>"##);
+    c("cond-object-with-throwing-valueof", r##"<if cond="({valueOf: function () { throw 'vo'; }}) &gt; 1"><raise event="no"/></if>"##);
+    c("in-with-object-argument", r##"<if cond="In({})"><raise event="no"/></if>"##);
+    v
+}
+
 fn c12_doc(odd: &[(&str, &str, String, &str)]) -> String {
     let mut content = String::new();
     let mut cond = String::new();
@@ -1589,7 +1626,7 @@ fn c12_doc(odd: &[(&str, &str, String, &str)]) -> String {
     }
     format!(
         r##"<scxml {ns} {attr} name="odd">
-<datamodel><data id="v" expr="0"/><data id="sv" expr="'#_internal'"/>{data}</datamodel>
+<datamodel><data id="v" expr="0"/><data id="sv" expr="'#_internal'"/><data id="arr" expr="[1, 2]"/>{data}</datamodel>
 <state id="s0">
  <transition event="e1"{cond} target="s1"><script>mark('before')</script>{content}<script>mark('after')</script></transition>
  <transition event="e1" target="s1"><script>mark('fallback')</script></transition>
@@ -1609,12 +1646,24 @@ fn c12_doc(odd: &[(&str, &str, String, &str)]) -> String {
     )
 }
 
-fn scenario_robust(ctx: &Ctx, out: &mut WorkerOut, index: usize, which: &[usize]) {
-    let all = oddities();
+fn scenario_robust(ctx: &Ctx, out: &mut WorkerOut, index: usize, which: &[usize], ecma: bool) {
+    let mut all = oddities();
+    if ecma {
+        all.extend(ecma_oddities());
+        // data models other than the one of this slice are the business of the other slice
+        for o in all.iter_mut() {
+            if o.1 == "scxml-attr" {
+                o.2 = "datamodel=\"ecmascript\"".to_string();
+            }
+        }
+    }
     let odd: Vec<(&str, &str, String, &str)> = which.iter().map(|i| all[*i].clone()).collect();
     let names: Vec<&str> = odd.iter().map(|o| o.0).collect();
-    let label = names.join("+");
-    let xml = c12_doc(&odd);
+    let label = if ecma { format!("ecma:{}", names.join("+")) } else { names.join("+") };
+    let mut xml = c12_doc(&odd);
+    if ecma {
+        xml = xml.replace("datamodel=\"rfsm-expression\"", "datamodel=\"ecmascript\"");
+    }
     let replay = json!({"engine":"e1","index": index, "xml": xml, "oddities": names});
     let mut run = match Run::start(&xml, std::time::Duration::from_secs(15)) {
         Ok(r) => r,
@@ -1671,7 +1720,7 @@ fn scenario_robust(ctx: &Ctx, out: &mut WorkerOut, index: usize, which: &[usize]
     for (n, _, _, req) in &odd {
         // with two oddities one can prevent the other from being executed (aborted block, guard
         // counted as false): the required error class is checked on single-oddity documents only
-        if req.is_empty() || odd.len() != 1 {
+        if req.is_empty() || odd.len() != 1 || ecma {
             continue;
         }
         let ok = if *req == "error.*" { !seen_errors.is_empty() } else { seen_errors.iter().any(|e| e == req) };
@@ -1730,7 +1779,12 @@ fn run_scenario(ctx: &Ctx, out: &mut WorkerOut, index: usize, name: &str, _label
     out.add("documents", 1);
     if let Some(rest) = name.strip_prefix("robust:") {
         let which: Vec<usize> = rest.split(',').filter(|x| !x.is_empty()).map(|x| x.parse().unwrap()).collect();
-        scenario_robust(ctx, out, index, &which);
+        scenario_robust(ctx, out, index, &which, false);
+        return;
+    }
+    if let Some(rest) = name.strip_prefix("robust@ecma:") {
+        let which: Vec<usize> = rest.split(',').filter(|x| !x.is_empty()).map(|x| x.parse().unwrap()).collect();
+        scenario_robust(ctx, out, index, &which, true);
         return;
     }
     match name {
@@ -1763,11 +1817,49 @@ fn worker(ctx: &Ctx) {
         .map(|p| ctx.extra[p + 1].parse().unwrap());
     let mut stop = false;
     let mut hard = 0;
+    // C12: the subject may kill the whole process (stack overflow inside a script engine, abort). The worker keeps
+    // its findings in a state file after every item; a respawned worker attributes the death to the item that was in
+    // flight (a verdict for this property: the session crashed) and carries on behind it.
+    let persistent = ctx.prop == "C12" && ctx.out.is_some();
+    let mut resume_after: Option<usize> = None;
+    if persistent {
+        let o = ctx.out.clone().unwrap();
+        if let (Ok(pr), Some(st)) = (std::fs::read_to_string(format!("{}.progress", o)), WorkerOut::load_state(&format!("{}.state", o))) {
+            out = st;
+            let mut it = pr.splitn(2, ' ');
+            let idx: usize = it.next().unwrap_or("0").parse().unwrap_or(0);
+            let label = it.next().unwrap_or("").to_string();
+            let errtail: String = std::fs::read_to_string(o.replace(".json", ".err"))
+                .unwrap_or_default()
+                .lines()
+                .filter(|l| l.contains("overflow") || l.contains("abort") || l.contains("fatal"))
+                .last()
+                .unwrap_or("")
+                .chars()
+                .take(160)
+                .collect();
+            let what = label.rsplit(' ').find(|x| !x.is_empty()).unwrap_or("").to_string();
+            out.violation(
+                ctx,
+                "process-abort",
+                &format!("process-abort:{}", label.trim().rsplit(' ').next().unwrap_or("")),
+                &format!("the whole process died while this document was running (item #{} {}): {}", idx, label.trim(), errtail),
+                json!({"engine":"e1","index": idx, "label": label, "scenario": what}),
+            );
+            resume_after = Some(idx);
+            out.save_state(&format!("{}.state", o));
+        }
+    }
     families(ctx, &mut |item: Item| {
         let my = index;
         index += 1;
         if stop || !ctx.mine(my) {
             return;
+        }
+        if let Some(r) = resume_after {
+            if my <= r {
+                return;
+            }
         }
         if let Some(o) = only {
             if o != my {
@@ -1783,7 +1875,13 @@ fn worker(ctx: &Ctx) {
             let _ = std::fs::write(format!("{}.progress", o), format!("{} {}", my, item.label));
         }
         if let Some(sc) = &item.opts.scenario {
+            if persistent && resume_after.is_none() && !std::path::Path::new(&format!("{}.state", ctx.out.clone().unwrap())).exists() {
+                out.save_state(&format!("{}.state", ctx.out.clone().unwrap()));
+            }
             run_scenario(ctx, &mut out, my, sc, &item.label);
+            if persistent {
+                out.save_state(&format!("{}.state", ctx.out.clone().unwrap()));
+            }
             return;
         }
         let mut ex = Explorer::new(&item.doc, item.opts.clone());
@@ -1856,6 +1954,21 @@ fn replay(ctx: &Ctx, path: &str) -> i32 {
         i += 1;
     });
     let item = found.expect("item index not in family");
+    if v["clause"].as_str() == Some("process-abort") && !ctx.has("--in-child") {
+        // the subject kills the process: run the item in a child process and look at how it ends
+        let exe = std::env::current_exe().unwrap();
+        let mut args: Vec<String> = std::env::args().skip(1).collect();
+        args.push("--in-child".into());
+        let st = std::process::Command::new(exe).args(&args).status().expect("spawn replay child");
+        use std::os::unix::process::ExitStatusExt;
+        if st.signal().is_some() {
+            eprintln!("the process running item #{} {} was killed by signal {:?}: VIOLATION reproduced", index, item.label, st.signal());
+            println!("VIOLATION property={} replay={}", ctx.prop, path);
+            return 1;
+        }
+        eprintln!("the process running item #{} ended normally ({:?})", index, st.code());
+        return if st.code() == Some(1) { 1 } else { 0 };
+    }
     if let Some(sc) = &item.opts.scenario {
         // scripted scenario: re-run it twice; reproduced if the recorded signature shows up again
         let want = v["signature"].as_str().unwrap_or("").to_string();
@@ -1909,7 +2022,8 @@ fn main() {
         worker(&ctx);
         return;
     }
-    let agg = run_workers(&ctx);
+    // C12: a subject that kills its process is respawned behind the fatal item (see worker())
+    let agg = if ctx.prop == "C12" { run_workers_resumable(&ctx, 60) } else { run_workers(&ctx) };
     let common_assume: Vec<String> = vec![
         "generated document families up to the stated size bounds; larger documents are not covered".into(),
         "observation through the public Tracer callbacks, a custom Action (mark) and GlobalData read at the idle point".into(),
